@@ -48,7 +48,7 @@ def contextvar_owner(an: Analysis, fi: FunctionInfo, recv: ast.AST) -> str | Non
 def contextvar_ops(an: Analysis) -> list[tuple[FunctionInfo, ast.Call, str, str | None]]:
     """Every ContextVar.get/set/reset call in the package: (function, call, op, owner class)."""
     out = []
-    for fi in an.prog.functions.values():
+    for fi in an.prog.scan_functions():
         for n in fi.own_nodes():
             if isinstance(n, ast.Call):
                 c = an.callee(fi, n)
